@@ -84,7 +84,8 @@ CASES = [
 """)]),
  dict(name="c02-commit-old-node-after-publish", ids=["C02"], rule="C02.R2c", subs=[(U, """    // commit previous write to the old queue before switching
     _producer->bounded_queue.commit_write();
-""", ""), (U, """    _producer->next.store(next_node, std::memory_order_release);
+
+    // We failed to reserve""", """    // We failed to reserve"""), (U, """    _producer->next.store(next_node, std::memory_order_release);
 
     // producer is now using the next node
     _producer = next_node;
@@ -189,7 +190,9 @@ CASES = [
         uint64_t const ts_now2 = _options.log_timestamp_ordering_grace_period.count() ? static_cast<uint64_t>((detail::get_timestamp<std::chrono::system_clock>() - _options.log_timestamp_ordering_grace_period).count()) : ts_now;
         cached_transit_events_count += _read_and_decode_frontend_queue(
           thread_context->get_spsc_queue_union().unbounded_spsc_queue, thread_context, ts_now2);""")]),
- dict(name="c05-min-selection-reversed", ids=["C05"], rule="C05.R3b", subs=[(BW, "if (te && (min_ts > te->timestamp))", "if (te && (min_ts < te->timestamp))")]),
+ dict(name="c05-min-selection-reversed", ids=["C05"], rule="C05.R3b", subs=[(BW, "if (te && (!thread_context || (min_ts > te->timestamp)))", "if (te && (!thread_context || (min_ts < te->timestamp)))")]),
+ dict(name="c05-prefix-max-timestamp-never-selected", ids=["C05", "C03"], rule="R", subs=[(BW, "if (te && (!thread_context || (min_ts > te->timestamp)))", "if (te && (min_ts > te->timestamp))")]),
+ dict(name="c05-first-candidate-test-inverted", ids=["C05"], rule="C05.R3", subs=[(BW, "if (te && (!thread_context || (min_ts > te->timestamp)))", "if (te && (thread_context || (min_ts > te->timestamp)))")]),
  dict(name="c05-min-selection-break", ids=["C05"], rule="C05.R3a", subs=[(BW, """        min_ts = te->timestamp;
         thread_context = tc;
       }""", """        min_ts = te->timestamp;
@@ -380,7 +383,8 @@ CASES = [
         }
         return true;""")]),
  dict(name="c08-count-every-event", ids=["C08"], rule="C08.R2", subs=[("Logger.h", """        // not enough space to push to queue message is dropped
-        if (macro_metadata->event() == MacroMetadata::Event::Log)
+        if ((macro_metadata->event() == MacroMetadata::Event::Log) ||
+            (macro_metadata->event() == MacroMetadata::Event::LogWithRuntimeMetadata))
         {
           thread_context->increment_failure_counter();
         }""", """        // not enough space to push to queue message is dropped
@@ -395,11 +399,13 @@ CASES = [
  dict(name="c08-exit-skips-report", ids=["C08"], rule="C08.R4d", subs=[(BW, """        // we are done, all queues are now empty
         _check_failure_counter(_options.error_notifier);""", """        // we are done, all queues are now empty""")]),
  dict(name="c08-count-twice", ids=["C08"], rule="C08.R2", subs=[("Logger.h", """        // not enough space to push to queue message is dropped
-        if (macro_metadata->event() == MacroMetadata::Event::Log)
+        if ((macro_metadata->event() == MacroMetadata::Event::Log) ||
+            (macro_metadata->event() == MacroMetadata::Event::LogWithRuntimeMetadata))
         {
           thread_context->increment_failure_counter();
         }""", """        // not enough space to push to queue message is dropped
-        if (macro_metadata->event() == MacroMetadata::Event::Log)
+        if ((macro_metadata->event() == MacroMetadata::Event::Log) ||
+            (macro_metadata->event() == MacroMetadata::Event::LogWithRuntimeMetadata))
         {
           thread_context->increment_failure_counter();
           thread_context->increment_failure_counter();
@@ -692,12 +698,12 @@ CASES = [
           _populate_formatted_named_args(transit_event, arg_names);
         }
       }
-    }
-    else if (transit_event->macro_metadata->event() == MacroMetadata::Event::Flush)""", """          _populate_formatted_log_message(transit_event, message_format.data());
+
+      if (transit_event->macro_metadata->event() == MacroMetadata::Event::LogWithRuntimeMetadata)""", """          _populate_formatted_log_message(transit_event, message_format.data());
         }
       }
-    }
-    else if (transit_event->macro_metadata->event() == MacroMetadata::Event::Flush)""")]),
+
+      if (transit_event->macro_metadata->event() == MacroMetadata::Event::LogWithRuntimeMetadata)""")]),
  dict(name="c19-hit-arm-uses-original-template", ids=["C19"], rule="C19.R2b", subs=[(BW, """          auto const& [message_format, arg_names] = search->second;
 
           _populate_formatted_log_message(transit_event, message_format.data());""", """          auto const& [message_format, arg_names] = search->second;
@@ -1165,6 +1171,13 @@ CASES = [
         return;
       }
       if (transit_event.log_level() != LogLevel::Backtrace)""")]),
+ dict(name="c03-copy_to-text-not-copied", ids=["C03", "C18"], rule="R", subs=[("backend/TransitEvent.h", "    other.formatted_msg->append(*formatted_msg);", ";")]),
+ dict(name="c03-copy_to-named-args-on-the-wrong-outcome", ids=["C03"], rule="C03.R4t", subs=[("backend/TransitEvent.h", "    if (named_args)\n    {\n      other.named_args", "    if (!named_args)\n    {\n      other.named_args")]),
+ dict(name="c03-logger-drops-its-sinks", ids=["C03"], rule="C03.R14", subs=[("core/LoggerBase.h", "    this->sinks = static_cast<std::vector<std::shared_ptr<Sink>>&&>(sinks);", ";")]),
+ dict(name="c04-direct-format-text-not-written", ids=["C04"], rule="C04.R14", subs=[("DirectFormatCodec.h", '    fmtquill::format_to_n(reinterpret_cast<char*>(buffer), len, "{}", arg);', ";")]),
+ dict(name="c04-direct-format-limited-by-another-length", ids=["C04"], rule="C04.R14", subs=[("DirectFormatCodec.h", '    fmtquill::format_to_n(reinterpret_cast<char*>(buffer), len, "{}", arg);', '    fmtquill::format_to_n(reinterpret_cast<char*>(buffer), sizeof(len), "{}", arg);')]),
+ dict(name="c11-refusal-path-builds-the-error-text", ids=["C11"], rule="C11.R8", subs=[("core/UnboundedSPSCQueue.h", "      if (nbytes > _max_capacity)\n      {\n        QUILL_THROW(", "      std::string const too_large = \"Message size: \" + std::to_string(nbytes);\n      if (nbytes > _max_capacity)\n      {\n        QUILL_THROW(")]),
+ dict(name="c02-grow-without-commit", ids=["C02"], rule="C02.R2h", subs=[("core/UnboundedSPSCQueue.h", "    // commit previous write to the old queue before switching\n    _producer->bounded_queue.commit_write();\n\n    // We failed to reserve", "    // We failed to reserve")]),
  dict(name="c06-prefix-removed-logger-sinks-not-collected", ids=["C06"], rule="C06.R4c", subs=[(BW, """        for (std::shared_ptr<Sink> const& sink : logger->sinks)
         {
           Sink* logger_sink_ptr = sink.get();""", """        if (logger->is_valid_logger())
